@@ -49,10 +49,10 @@ func cat(us ...[]Unit) []Unit {
 func init() {
 	clusterCheck("C01",
 		func() []Unit {
-			return scUnits(1, "elect3", "elect2", "write3", "crash3", "majority-restart", "transfer", "member", "fig8", "revote3", "crash4")
+			return scUnits(1, "elect3", "elect2", "write3", "crash3", "majority-restart", "transfer", "member", "fig8", "revote3", "crash4", "elect3-hb", "crash3-hb")
 		},
 		func() []Unit {
-			return cat(scUnits(2, "elect3", "elect2", "write3", "crash3", "majority-restart", "transfer", "member", "member-race", "fig8", "revote3", "crash4", "member-sor"), scUnits(1, "elect5"))
+			return cat(scUnits(2, "elect3", "elect2", "write3", "crash3", "majority-restart", "transfer", "member", "member-race", "fig8", "revote3", "crash4", "member-sor", "elect3-hb", "crash3-hb", "transfer-hb"), scUnits(1, "elect5"))
 		})
 	clusterCheck("C02",
 		func() []Unit {
